@@ -2,8 +2,9 @@
 
 Proof part : coq/Props/Properties_C09.v (model: coq/ParseTotal/*) -- termination of the comment
              skipper, in-bounds-ness of the tokenizer / option-line walk as a property of the trace of
-             accesses, absence of format interpretation; several statements are REFUTED for the faithful
-             model, with witnesses that this check replays on the real code.
+             accesses, absence of format interpretation, for the code as it is; the same statements are
+             REFUTED for the model of the code before the repairs, and those witnesses are replayed here
+             as regression inputs (they must no longer reproduce).
 Tie        : harness/c09_parse.c (ASan+UBSan, fork + 5 s alarm per case) against bin/ptotal (extracted
              model): token sequences, option (flag,value,message), skip position, constructed message.
 Predicate  : decided on the implementation's own output: crash / sanitizer report / timeout / NULL
@@ -335,20 +336,11 @@ def run_harness(ctx, h, cases, tag="b"):
     return results
 
 
-FIXED = {}     # case index -> answer of the repaired model
+OLD = {}       # case index -> answer of the model of the code BEFORE the repairs (regression inputs)
 
 
-def matches_fixed(mode, status, payload, fans):
-    if fans is None or status != "OK": return False
-    if mode == "skipc": return payload == fans
-    if mode in ("tokmem", "tokfile"):
-        m = re.match(r"(TOKENS \d+ \S*) oob=(\d)$", fans)
-        return bool(m) and payload.rstrip() == m.group(1).rstrip()
-    if mode == "optline":
-        m = re.match(r"(OPT flag=\S+ value=\S+ err=\d) msg=(.*) oob=0$", fans)
-        return bool(m) and payload == "%s msg=%s" % (m.group(1), m.group(2))
-    if mode == "fmt": return payload == fans
-    return False
+def old_predicts_defect(ans):
+    return ans is not None and ("HANG" in ans or "oob=1" in ans or "WILD" in ans)
 
 
 def model_lines(ctx, cases):
@@ -364,16 +356,16 @@ def model_lines(ctx, cases):
         else: continue
         idx.append(i)
     out = ctx.run_model("ptotal", "\n".join(q) + "\n").split("\n")
-    # the same questions to the model of the REPAIRED code (fixes/C09_*.patch): an implementation that
-    # agrees with it is as acceptable as one that agrees with the model of the code as shipped
-    qf = [re.sub(r"^(SKIP|OPT|FMT) ", lambda m: m.group(1) + "FIXED ", x) for x in q]
-    outf = ctx.run_model("ptotal", "\n".join(qf) + "\n").split("\n")
-    FIXED.clear(); FIXED.update({i: outf[k] for k, i in enumerate(idx) if k < len(outf)})
+    # the same questions to the model of the code as it was before the repairs: where it predicts a defect
+    # (HANG / oob=1 / WILD) the input is a regression input, the implementation must be clean on it
+    qo = [re.sub(r"^(SKIP|TOK|OPT|FMT) ", lambda m: m.group(1) + "OLD ", x) for x in q]
+    outo = ctx.run_model("ptotal", "\n".join(qo) + "\n").split("\n")
+    OLD.clear(); OLD.update({i: outo[k] for k, i in enumerate(idx) if k < len(outo)})
     return {i: out[k] for k, i in enumerate(idx) if k < len(out)}
 
 
 def classify_timeout(mode, b, model_ans):
-    if mode in ("stream", "file", "skipc") and model_ans == "SKIP HANG":
+    if mode in ("stream", "file", "skipc") and (model_ans == "SKIP HANG" or would_hang(b)):
         return "hang:skip_comments:bang-comment-at-EOF"
     d = declared_degree(b)
     if d is not None and d >= 10 ** 7 and mode != "inline":
@@ -469,8 +461,8 @@ def evaluate(ctx, case, res, model_ans, stats):
             else:
                 ok = got is not None and got == unescape(model_ans[4:])
                 if got is not None and got != want: stats["witness"]["fmt-interpreted"] = stats["witness"].get("fmt-interpreted", 0) + int(ok)
-        if ok is False and matches_fixed(mode, status, payload, stats["fixed"].get(stats["cur"])):
-            ok = True; stats["agree_with_fixed_model"] = stats.get("agree_with_fixed_model", 0) + 1
+        if ok and status == "OK" and old_predicts_defect(stats["old"].get(stats["cur"])):
+            stats["regression_clean"] = stats.get("regression_clean", 0) + 1
         if ok is False:
             stats["corr_mismatch"].append({"mode": mode, "hex": b.hex(), "impl": "%s | %s" % (status, payload[:200]), "model": model_ans[:200]})
     return v
@@ -479,7 +471,7 @@ def evaluate(ctx, case, res, model_ans, stats):
 def run(ctx):
     ctx.prove()
     h = ctx.compile_harness(["c09_parse.c"], "c09_parse", mode="san")
-    stats = {"outcome": {}, "corr": {}, "witness": {}, "corr_mismatch": [], "msg_with_token": 0, "fixed": FIXED, "cur": None}
+    stats = {"outcome": {}, "corr": {}, "witness": {}, "corr_mismatch": [], "msg_with_token": 0, "old": OLD, "cur": None}
 
     if ctx.replay:
         obj = json.load(open(ctx.replay))
@@ -548,7 +540,8 @@ def run(ctx):
         "model_correspondence_cases": stats["corr"],
         "model_witnesses_reproduced_on_implementation": stats["witness"],
         "correspondence_mismatches": len(stats["corr_mismatch"]),
-        "agree_with_repaired_model_only": stats.get("agree_with_fixed_model", 0),
+        "regression_inputs_clean": stats.get("regression_clean", 0),
+        "regression_rule": "inputs on which the model of the pre-repair code predicts HANG / out-of-bounds / wild format and the implementation agrees with the model of the present code",
         "trusted_base": [
             "Coq 8.16.1 kernel; no axioms (see axioms_used)",
             "extraction: ExtrOcamlBasic + ExtrOcamlNativeString only; hand-written ocaml/ptotal_driver.ml (hex <-> Z lists)",
